@@ -205,7 +205,8 @@ pub fn run(prop: &Property, tier: Tier, seed: u64, shards_override: Option<usize
         sigs: HashSet::new(),
     };
     let mut harness_errors: Vec<String> = Vec::new();
-    let mut suspects: Vec<(String, (String, u64, u64))> = Vec::new(); // (kind, case)
+    let mut suspects: Vec<(usize, String, (String, u64, u64))> = Vec::new(); // (shard, kind, case)
+    let mut resumed_notes: Vec<String> = Vec::new();
 
     for (i, out, mut child) in children {
         let remaining = overall_limit.saturating_sub(t_start.elapsed());
@@ -221,7 +222,7 @@ pub fn run(prop: &Property, tier: Tier, seed: u64, shards_override: Option<usize
                 match read_cur(&out) {
                     Some(case) => {
                         let kind = if st.code() == Some(3) { "stuck".to_owned() } else { format!("crash({what})") };
-                        suspects.push((kind, case));
+                        suspects.push((i, kind, case));
                     }
                     None => harness_errors.push(format!("shard {i} died with {what} before running a case; see {}.log", out.display())),
                 }
@@ -230,17 +231,29 @@ pub fn run(prop: &Property, tier: Tier, seed: u64, shards_override: Option<usize
     }
 
     // a crashed or stuck shard: re-run the suspected case alone in a fresh process
-    for (n, (kind, case)) in suspects.iter().enumerate() {
+    for (n, (shard_i, kind, case)) in suspects.iter().enumerate() {
         let out = work.join(format!("rerun{n}.json"));
         let mut child = spawn_shard(prop, tier, seed, 0, 1, &out, Some(case));
         let st = wait_with_timeout(&mut child, Duration::from_secs(240));
         let (g, i, s) = case.clone();
         match st {
             Some(st) if st.success() => {
-                let _ = merge_report(&mut merged, &out);
-                harness_errors.push(format!(
-                    "shard {kind} at case {g}#{i} did not reproduce in isolation (inconclusive); remaining cases of that shard were not run"
-                ));
+                // the case is fine on its own (the machine had starved the shard): the whole shard
+                // is run once more; only if that fails too is the run incomplete
+                let out2 = work.join(format!("reshard{n}.json"));
+                let mut again = spawn_shard(prop, tier, seed, *shard_i, nshards, &out2, None);
+                match wait_with_timeout(&mut again, overall_limit.max(Duration::from_secs(600))) {
+                    Some(st2) if st2.success() && merge_report(&mut merged, &out2).is_ok() => {
+                        resumed_notes.push(format!("shard {shard_i} {kind} at case {g}#{i}; the case did not reproduce in isolation and the shard completed when it was run again"));
+                    }
+                    _ => {
+                        let _ = again.kill();
+                        let _ = merge_report(&mut merged, &out);
+                        harness_errors.push(format!(
+                            "shard {kind} at case {g}#{i} did not reproduce in isolation (inconclusive) and the shard did not complete when run again; remaining cases of that shard were not run"
+                        ));
+                    }
+                }
             }
             Some(st) if st.code() == Some(3) => merged.violations.push(Violation {
                 signature: "nontermination".into(),
@@ -333,7 +346,7 @@ pub fn run(prop: &Property, tier: Tier, seed: u64, shards_override: Option<usize
     // inconclusive CASES (a timing case on a loaded machine, a peer that could not be set up) are
     // reported, never folded into held or violated; they do not change the exit code as long as the
     // run still observed what it must (distinct non-trivial cases, required observations above)
-    let mut soft_reasons: Vec<String> = Vec::new();
+    let mut soft_reasons: Vec<String> = resumed_notes.clone();
     if inconclusive_cases > 0 {
         soft_reasons.push(format!("{inconclusive_cases} of {} cases inconclusive (not judged; see coverage.inconclusive.cases)", merged.evaluations));
     }
